@@ -530,6 +530,65 @@ theorem SumIntoBy_agrees {am dest : amounts.Amounts} (hwa : WF am) (hwd : WF des
       rw [find?_eq_none]; exact fun h => ht (hkeys.1 h)
     simp [ht, hnone]
 
+/-- every key that is present holds a non-zero amount, and every non-zero amount is present (what the deletion loop of
+`SumIntoBy` establishes) -/
+def Clean (am : amounts.Amounts) : Prop := ∀ x, x ∈ AMap.keys am ↔ AMap.get am x 0 ≠ 0
+
+theorem clean_nil : Clean [] := by intro x; simp [AMap.keys, AMap.get, AMap.find?]
+
+theorem mappedSum_untouched {am : amounts.Amounts} {p : amounts.Key → Bool} {m : amounts.Key → amounts.Key} {x : amounts.Key}
+    (h : ¬ ∃ k ∈ AMap.keys am, p k = true ∧ m k = x) : mappedSum am p m x = 0 := by
+  unfold mappedSum total
+  have : am.filter (fun e => p e.1 && decide (m e.1 = x)) = [] := by
+    apply List.filter_eq_nil_iff.2
+    intro e he hpe
+    simp only [Bool.and_eq_true, decide_eq_true_eq] at hpe
+    exact h ⟨e.1, List.mem_map.2 ⟨e, he, rfl⟩, hpe.1, hpe.2⟩
+  rw [this]; rfl
+
+/-- **`SumIntoBy` as an addition of amounts**: every amount of the result (zero where there is no entry) is the old amount plus
+the mapped sum, and the result is `Clean` — whatever `dest` was -/
+theorem SumIntoBy_val {am dest : amounts.Amounts} (hwa : WF am) (hwd : WF dest)
+    (pred : Option (amounts.Key → Bool)) (mapr : Option (amounts.Key → amounts.Key)) {order1 order2 : List amounts.Key}
+    (h1 : order1.Perm (AMap.keys am))
+    (h2 : ∀ x, touched am dest (pred.getD fun _ => true) (mapr.getD id) x → x ∈ order2) :
+    ∃ r, amounts.Amounts.SumIntoBy am dest (pred.bind fun p => pureFn p) (mapr.bind fun m => pureFn m) order1 order2 = GoSem.Outcome.ok r ∧
+      WF r ∧ Clean r ∧
+      ∀ x, AMap.get r x 0 = AMap.get dest x 0 + mappedSum am (pred.getD fun _ => true) (mapr.getD id) x := by
+  obtain ⟨r, hr, hw, hf⟩ := SumIntoBy_agrees hwa hwd pred mapr h1 h2
+  have hval : ∀ x, AMap.get r x 0 = AMap.get dest x 0 + mappedSum am (pred.getD fun _ => true) (mapr.getD id) x := by
+    intro x
+    by_cases hl : touched am dest (pred.getD fun _ => true) (mapr.getD id) x ∧
+        AMap.get dest x 0 + mappedSum am (pred.getD fun _ => true) (mapr.getD id) x ≠ 0
+    · exact get_eq_of_find? ((hf x).1 hl) 0
+    · have hn := (hf x).2 hl
+      have hg : AMap.get r x 0 = 0 := by simp [AMap.get, hn]
+      rw [hg]
+      by_cases ht : touched am dest (pred.getD fun _ => true) (mapr.getD id) x
+      · have : ¬ (AMap.get dest x 0 + mappedSum am (pred.getD fun _ => true) (mapr.getD id) x ≠ 0) := fun h => hl ⟨ht, h⟩
+        exact (Decidable.not_not.1 this).symm
+      · have h1' : x ∉ AMap.keys dest := fun h => ht (Or.inl h)
+        have h2' : ¬ ∃ k ∈ AMap.keys am, (pred.getD fun _ => true) k = true ∧ (mapr.getD id) k = x := fun h => ht (Or.inr h)
+        rw [get_of_not_mem h1', mappedSum_untouched h2', Rat.add_zero]
+  refine ⟨r, hr, hw, fun x => ?_, hval⟩
+  constructor
+  · intro hx
+    by_cases hl : touched am dest (pred.getD fun _ => true) (mapr.getD id) x ∧
+        AMap.get dest x 0 + mappedSum am (pred.getD fun _ => true) (mapr.getD id) x ≠ 0
+    · rw [hval x]; exact hl.2
+    · have hn := (hf x).2 hl
+      exact absurd hx ((find?_eq_none r x).1 hn)
+  · intro hx
+    rw [hval x] at hx
+    have ht : touched am dest (pred.getD fun _ => true) (mapr.getD id) x := by
+      apply Classical.byContradiction
+      intro ht
+      have h1' : x ∉ AMap.keys dest := fun h => ht (Or.inl h)
+      have h2' : ¬ ∃ k ∈ AMap.keys am, (pred.getD fun _ => true) k = true ∧ (mapr.getD id) k = x := fun h => ht (Or.inr h)
+      rw [get_of_not_mem h1', mappedSum_untouched h2', Rat.add_zero] at hx
+      exact hx rfl
+    exact mem_keys_of_find? ((hf x).1 ⟨ht, hx⟩)
+
 /-- **`Amounts.SumBy`**: `SumIntoBy` into the empty map: the result holds, for every key that is the image of a filtered key
 and whose mapped sum is not zero, that sum -/
 theorem SumBy_agrees {am : amounts.Amounts} (hwa : WF am)
